@@ -271,16 +271,15 @@ GeomOK(memLen, r) ==
 \* slot by slot (the property as stated), for lists small enough to enumerate
 SlotsOf(r) == {<<i, k>> \in (DOMAIN r.lists) \X (0..SmallCap) : r.lists[i].cap <= SmallCap /\ k < r.lists[i].cap}
 SlotsOK(memLen, r) ==
-    \A s \in SlotsOf(r) :
-        LET l == r.lists[s[1]]
-            a == SlotStart(l, s[2])
-            e == SlotEnd(l, s[2])
-        IN /\ a >= l.off + LH                                      \* behind its list header
-           /\ e <= memLen                                          \* inside the mapping
-           /\ ~Meet(a, e, 0, BMH)                                  \* not on the manager header
-           /\ \A j \in DOMAIN r.lists : ~Meet(a, e, r.lists[j].off, r.lists[j].off + LH)   \* nor on any list header
-           /\ \A t \in SlotsOf(r) : s # t =>
-                ~Meet(a, e, SlotStart(r.lists[t[1]], t[2]), SlotEnd(r.lists[t[1]], t[2]))  \* pairwise disjoint
+    LET S == SlotsOf(r)
+        \* <<class, index, start, end>> of every enumerated slot, computed once
+        Ext == {<<s[1], s[2], SlotStart(r.lists[s[1]], s[2]), SlotEnd(r.lists[s[1]], s[2])>> : s \in S}
+    IN \A x \in Ext :
+        /\ x[3] >= r.lists[x[1]].off + LH                             \* behind its list header
+        /\ x[4] <= memLen                                             \* inside the mapping
+        /\ ~Meet(x[3], x[4], 0, BMH)                                  \* not on the manager header
+        /\ \A j \in DOMAIN r.lists : ~Meet(x[3], x[4], r.lists[j].off, r.lists[j].off + LH)   \* nor on any list header
+        /\ \A y \in Ext : (x[1] # y[1] \/ x[2] # y[2]) => ~Meet(x[3], x[4], y[3], y[4])       \* pairwise disjoint
 ClassesAsConfigured(c, r) ==
     LET ps == EffPairs(c)
     IN Len(r.lists) = Len(ps) /\ \A i \in DOMAIN r.lists : r.lists[i].capPer = ps[i][1]
